@@ -178,7 +178,9 @@ fn main() {
                         }
                     }
                     used.push(c);
-                    vs.push(c * VBASE + (v as u32 + 1) % 2);
+                    // a class of zero-length values has one value only
+                    let idx = if default_vlens(p)[c as usize] == 0 { 0 } else { (v as u32 + 1) % 2 };
+                    vs.push(c * VBASE + idx);
                 }
                 let restore = ["abort", "rebuild", "commit"][var % 3];
                 let cache = if var % 4 == 3 { 0 } else { 1 << 20 };
